@@ -437,10 +437,16 @@ pub fn shard_run(tier: &str, seed: u64, replay_case: Option<usize>, shard: Shard
                                             sub.storage.txn(cid).ok().and_then(|mut t| t.get_client().ok().flatten()).map(|c| c.latest_version_id).unwrap_or(Uuid::nil())
                                         };
                                         let (la, lb) = (latest_of(&s), latest_of(&fresh));
-                                        let steps: Vec<(&str, Req, Req)> = vec![
+                                        let mut steps: Vec<(&str, Req, Req)> = vec![
                                             ("AddVersion(latest)", Req::AddVersion { parent: la, data: b"after-fault".to_vec() }, Req::AddVersion { parent: lb, data: b"after-fault".to_vec() }),
                                             ("GetChildVersion(previous latest)", Req::GetChild { parent: la }, Req::GetChild { parent: lb }),
                                         ];
+                                        // the client whose request failed sends it again, byte for byte, after
+                                        // another replica's version has been accepted in the meantime
+                                        if matches!(req, Req::AddVersion { .. } | Req::AddSnapshot { .. }) {
+                                            steps.push(("the failed request sent again", req.clone(), req.clone()));
+                                            steps.push(("GetChildVersion(latest)", Req::GetChild { parent: la }, Req::GetChild { parent: lb }));
+                                        }
                                         for (name, ra, rb) in steps {
                                             let a = s.exec(cid, &ra);
                                             let b = fresh.exec(cid, &rb);
